@@ -50,9 +50,8 @@ Inductive case :=
             (* (i, j, outcome class of InclusionProof(i,j), of ConsistencyProof(i,j)):
                0 = a proof, 1 = an error, 2 = a Go panic — for out-of-range arguments *)
             (edges : list (N * N * N * N))
-(* Size() after a history with a restart (Close + Open) after a rewind: durable once an append
-   followed the rewind (09014a8), NOT durable otherwise: the known finding "ahtree bare rewind not
-   durable" is IN the model (Merkle/AHTReopen.v aht_bare_rewind_not_durable_refuted) *)
+(* Size() after a history with a restart (Close + Open) after a rewind (durable since /repo
+   09014a8 + 6a85281; theorem C08_aht_restart_changes_nothing) *)
 | CAhtProbe (ops : list aop2) (sz : N)
 (* (n, nodesUpto n, nodesUntil n, levelsAt n) *)
 | CAhtArith (rows : list (N * N * N * N))
